@@ -189,8 +189,11 @@ pub fn run(args: &Args, r: &mut Report) {
                                 match (&meta, &got) {
                                     (Some(md), Some((id, nonce))) => {
                                         m.judge("c03-metadata-body-is-wire-body", md.request_body == body, "", || "RequestMetadata.request_body differs from the bytes put on the wire".into());
-                                        m.judge("c03-metadata-key-and-nonce", md.public_key_id == *id && md.nonce.to_string() == *nonce, "", || {
-                                            format!("metadata (key {}, nonce {}) vs uri (key {}, nonce {})", md.public_key_id, md.nonce, id, nonce)
+                                        // "the same nonce": the 64 hex digits on the wire are the metadata's 32 nonce bytes
+                                        // (encoded here independently of the library's own Display)
+                                        let nonce_bytes: [u8; 32] = md.nonce.into();
+                                        m.judge("c03-metadata-key-and-nonce", md.public_key_id == *id && ::hex::encode(nonce_bytes) == *nonce, "", || {
+                                            format!("metadata (key {}, nonce bytes {}) vs uri (key {}, nonce {})", md.public_key_id, ::hex::encode(nonce_bytes), id, nonce)
                                         });
                                         if !nonces.insert(nonce.clone()) {
                                             reused += 1;
